@@ -11,7 +11,9 @@ T(c, h, n) == [c |-> c, h |-> h, n |-> n]
 Nums == { T("num","30",1), T("num","2d30",2), T("num","3132",2), T("num","2d312e35",4), T("num","316535",3),
           T("num","31452b35",4), T("num","302e3235652d33",7), T("num","39",1), T("num","2d39",2) }
 Strs == { T("str","2222",2), T("str","226122",3), T("str","225c6e22",4), T("str","225c753030343122",8),
-          T("str","22c3a922",4), T("str","22e282ac22",5), T("str","225c5c5c2222",6), T("str","227b5d2c3a22",6) }
+          T("str","22c3a922",4), T("str","22e282ac22",5), T("str","225c5c5c2222",6), T("str","227b5d2c3a22",6),
+          \* strings spelled like a number and like a literal: "0" "true" "null" (other values than 0, true, null)
+          T("str","223022",3), T("str","227472756522",6), T("str","226e756c6c22",6) }
 Lits == { T("true","74727565",4), T("false","66616c7365",5), T("null","6e756c6c",4) }
 Scalars == Nums \cup Strs \cup Lits
 Small   == { T("num","31",1), T("str","226122",3), T("null","6e756c6c",4) }
